@@ -8,7 +8,7 @@ python reading of the manual's template syntax (below)."""
 import os, re
 import common, mdrun, confgen
 
-ALPH = [b'a', b'b', b'\\', b'1', b'0', b'2', b'.', b'$', b'{', b'}', b' ', b'path', b'x', b'\\1', b'${path}', b'\\0.1', b'${mac}']
+ALPH = [b'a', b'b', b'A', b'Zq', b'\\', b'1', b'0', b'2', b'.', b'$', b'{', b'}', b' ', b'path', b'x', b'\\1', b'${path}', b'\\0.1', b'${mac}']
 
 
 def gen_text(rng, n=None):
@@ -88,9 +88,9 @@ def run_case(ck, rng, stats, samples):
         elif kind == 1:
             pat, flags = b'^(.)(.*)$', b''
         elif kind == 2:
-            pat, flags = b'([a-z]+)', rng.choice([b'', b'u', b'i'])
+            pat, flags = b'([a-z]+)', rng.choice([b'', b'u', b'i', b'u'])
         elif kind == 3:
-            pat, flags = b'(a|b)?(.*)', rng.choice([b'', b'l'])
+            pat, flags = b'(a|b)?(.*)', rng.choice([b'', b'l', b'l', b'u'])
         else:
             pat, flags = b'.', b''
         hdrs.append((name, val))
@@ -119,6 +119,11 @@ def run_case(ck, rng, stats, samples):
             else:
                 parts.append(b'${mac}')
         t = b''.join(parts)
+        if nc >= 2 and rng.randrange(3) == 0:
+            # captures of two different patterns side by side in one string, in both orders: the l / u flag of one pattern
+            # converts its own capture only
+            a_, b_ = rng.sample(range(nc), 2)
+            t = b'\\%d.%d|\\%d.%d|\\%d.%d' % (a_, rng.randrange(0, 2), b_, rng.randrange(0, 2), a_, rng.randrange(0, 3)) + rng.choice([b'', t])
         # no accidental macro syntax: "${" only in front of the two known names
         t = re.sub(rb'\$\{(?!path\}|mac\})', b'$ {', t)
         if t.endswith(b'\\'):
